@@ -34,6 +34,20 @@ def fitswcsLinear (l : Lin) (p : Rat × Rat) : Rat × Rat :=
 /-- the 2x2 block of an n x n PC matrix for the sky axes (i, j) -/
 def skyBlock (pc : Nat → Nat → Rat) (i j : Nat) : Rat × Rat × Rat × Rat := (pc i i, pc i j, pc j i, pc j j)
 
+/-- `sumTo n f = f 0 + ... + f (n-1)` -/
+def sumTo : Nat → (Nat → Rat) → Rat
+  | 0, _ => 0
+  | n + 1, f => sumTo n f + f n
+
+/-- FITS paper I, eq. (1)-(3) for an n-axis header in PC form: intermediate world coordinate of axis `i` at 0-based pixel `p` -/
+def fitsLinearND (n : Nat) (crpix cdelt : Nat → Rat) (pc : Nat → Nat → Rat) (p : Nat → Rat) (i : Nat) : Rat :=
+  cdelt i * sumTo n (fun k => pc i k * (p k - (crpix k - 1)))
+
+/-- the `Lin` that `fitswcs_linear` builds for the sky axes (i, j) of an n-axis PC header -/
+def skyLin (crpix cdelt : Nat → Rat) (pc : Nat → Nat → Rat) (i j : Nat) : Lin :=
+  let b := skyBlock pc i j
+  ⟨crpix i, crpix j, b.1, b.2.1, b.2.2.1, b.2.2.2, cdelt i, cdelt j, false⟩
+
 /-- FITS Paper II default: LONPOLE = phi0 when the fiducial latitude is at least theta0, else phi0 + 180 -/
 def lonpoleDefault (phi0 theta0 lat : Rat) : Rat := if lat ≥ theta0 then phi0 else phi0 + 180
 
